@@ -13,6 +13,10 @@ Inductive case :=
    chains.CalculateStartingBlock repeatedly, String()), compared field by field and by value with a
    snapshot taken right after loading, and the results of the later start-block computations *)
 | Chain (c : chain_in) (impl : chain_obs) (after : option chain_after)
+(* the same constructors / loaders on a chain entry whose keys are written in other spellings (Id, ID, iD,
+   BLOCKINTERVAL, ...) or under several spellings at once: the entry as written (key spelling + value of
+   the id, the type and the numeric settings) *)
+| ChainDoc (d : chain_doc) (impl : chain_obs) (after : option chain_after)
 | Net (v : Z) (impl : option Z)                        (* substrateNetwork through NewSubstrateConfig *)
 | Merge (locals shared : list obj) (impl : option (list obj))    (* processRawConfig *)
 (* string / bool / list settings of the relayer configuration or of one chain configuration, written
@@ -98,6 +102,13 @@ Definition agree (c : case) : bool :=
   | Chain ci impl after =>
       chain_obs_eqb (model_chain ci) impl
       && after_eqb (model_after (model_chain ci) (n_calcs after)) after
+  (* two spellings of one key, neither the exact one: the decoder takes the one Go's (random) map order
+     puts first - the model on the entry as listed or listed in the opposite order *)
+  | ChainDoc d impl after =>
+      (chain_obs_eqb (model_doc d) impl
+       && after_eqb (model_after (model_doc d) (n_calcs after)) after)
+      || (chain_obs_eqb (model_doc (rev_doc d)) impl
+          && after_eqb (model_after (model_doc (rev_doc d)) (n_calcs after)) after)
   | Net v impl => opt_Z_eqb (parse_net v) impl
   | Merge l s impl =>
       match process l s, impl with
@@ -119,6 +130,7 @@ Definition judge (c : case) : bool :=
   | Port t impl => port_ok t impl
   | Dur t impl => duration_ok t impl
   | Chain ci impl after => chain_ok ci impl && use_ok impl after
+  | ChainDoc d impl after => doc_ok d impl && use_ok impl after
   | Net v impl => net_ok v impl
   | Merge l s impl => merge_ok l s impl
   | Strs ws impl => strs_ok ws impl
@@ -133,6 +145,7 @@ Definition tag (c : case) : N :=
   | Dur t _ => (2 + some_b (parse_duration t))%N
   | Chain ci _ _ =>
       (4 + 2 * match ci_kind ci with Evm => 0 | Sub => 1 | Btc => 2 end + some_b (model_chain ci))%N
+  | ChainDoc d _ _ => (18 + some_b (model_doc d))%N
   | Net v _ => (12 + some_b (parse_net v))%N
   | Merge l s _ => (10 + some_b (process l s))%N
   | Strs ws _ => (14 + some_b (load_strings ws))%N
